@@ -330,6 +330,14 @@ theorem afterStop_K {a : ACfg} {s : St} (t : Sess.Tid) (p : PreC a s) (hD : aliv
       rw [trace2_emit2, mon2Run_append, hph1]; rfl
     · exact endCb_K t (p1.emit2 _) hD hds hV rfl hcb' hph1
 
+@[simp] theorem cpc_cancel2 (s : St) (t : ATid) : (s.cancel2 t).cpc = s.cpc := by
+  unfold St.cancel2; split <;> try rfl
+  split <;> rfl
+
+theorem bcore2_cancel2 (s : St) (t : ATid) : bcore2 (s.cancel2 t) = bcore2 s := by
+  unfold St.cancel2; split <;> try rfl
+  split <;> rfl
+
 /-- cancelling a live task that is not awaiting the helper: it is runnable with the cancellation pending -/
 theorem cancel2_alive (s : St) (t : ATid) (h : alive2 (s.astatus t) = true) (hv : s.astatus t ≠ .waitV) :
     s.cancel2 t = s.setA t .cancelled := by
@@ -454,5 +462,86 @@ theorem onSoupClose_K {a : ACfg} {s : St} (t : Sess.Tid) (ib : InvB2 a s) (is : 
     all_goals first | (split <;> rfl) | skip
     intro hcf
     rw [if_pos hcf]
+
+
+theorem resumeSoupClose_K {a : ACfg} {s : St} (t : Sess.Tid) (ib : InvB2 a s) (is : InvS a s)
+    (hnb : closerBlocked s = false) :
+    InvB2 a (resumeSoupClose a s t) ∧ InvS a (resumeSoupClose a s t) := by
+  unfold resumeSoupClose
+  split
+  · -- resumed after the second dispatcher ended
+    rename_i hc
+    have hD : alive2 (s.astatus .D2) = false := by simpa [closerBlocked, hc] using hnb
+    have hb : s.built = true := ib.bu (Or.inl (by rw [hc]; rfl))
+    have p := PreC.of_inv ib is hb (ib.q hb (by rw [hc]; simp)) (by rw [hc]; simp) (by rw [hc]; simp)
+    have p1 : PreC a { s with disp2Set := false } := by
+      obtain ⟨built, qc, cl, tc, ev, cf, we, wv, ty, wq, cc, hc, da, vs⟩ := p
+      exact ⟨built, qc, cl, tc, ev, cf, we, wv, ty, wq, cc, hc, fun h => by rw [hD] at h; contradiction, vs⟩
+    exact stopV2_K t p1 hD rfl (by show mon2Run s.trace2 = 0; rw [ib.ph]; simp [phase2, hc])
+  · -- resumed after the receive helper ended
+    rename_i hc
+    have hV : alive2 (s.astatus .V2) = false := by simpa [closerBlocked, hc] using hnb
+    have hb : s.built = true := ib.bu (Or.inl (by rw [hc]; rfl))
+    have p := PreC.of_inv ib is hb (ib.q hb (by rw [hc]; simp)) (by rw [hc]; simp) (by rw [hc]; simp)
+    obtain ⟨hD, hds⟩ := is.dn hb (Or.inl hc)
+    exact afterStop_K t p hD hds hV (by rw [ib.ph]; simp [phase2, hc])
+  · -- inside the user's close callback
+    rename_i k hc
+    have hb : s.built = true := ib.bu (Or.inl (by rw [hc]; rfl))
+    have hph1 : mon2Run s.trace2 = 1 := by rw [ib.ph]; simp [phase2, hc]
+    split
+    · have h1 : InvB2 a { s with cpc := .aborted } ∧ InvS a { s with cpc := .aborted } := by
+        obtain ⟨b, tc, bu, q, q', ac1, ac2, ac3, ev1, ev2, ev0, ub, ph⟩ := ib
+        obtain ⟨nb, we, wv, ty, wq, d2, cc, hc', can, v2, dn, vn, da, vs⟩ := is
+        have hph' : mon2Run ({ s with cpc := .aborted } : St).trace2 = phase2 a { s with cpc := .aborted } := hph1
+        constructor
+        · refine ⟨?_, ?_, ?_, ?_, ?_, ?_, ?_, ?_, ?_, ?_, ?_, ?_, hph'⟩ <;> grind [midStage, lateStage]
+        · refine ⟨?_, ?_, ?_, ?_, ?_, ?_, ?_, ?_, ?_, ?_, ?_, ?_, ?_, ?_⟩ <;> grind [midStage, lateStage, alive2]
+      exact innerStep_K _ h1.1 h1.2
+    · split
+      · have p := PreC.of_inv ib is hb (ib.q hb (by rw [hc]; simp)) (by rw [hc]; simp) (by rw [hc]; simp)
+        obtain ⟨hD, hds⟩ := is.dn hb (Or.inr (by rw [hc]; rfl))
+        exact endCb_K t p hD hds (is.vn hb (by rw [hc]; rfl)) (ib.ac2 hb (by rw [hc]; rfl)) (ib.ub _ hc).1 hph1
+      · rename_i k'
+        obtain ⟨b, tc, bu, q, q', ac1, ac2, ac3, ev1, ev2, ev0, ub, ph⟩ := ib
+        obtain ⟨nb, we, wv, ty, wq, d2, cc, hc', can, v2, dn, vn, da, vs⟩ := is
+        have hph' : mon2Run ({ s with cpc := .user k' } : St).trace2 = phase2 a { s with cpc := .user k' } := hph1
+        constructor
+        · refine ⟨?_, ?_, ?_, ?_, ?_, ?_, ?_, ?_, ?_, ?_, ?_, ?_, hph'⟩ <;> grind [midStage, lateStage]
+        · refine ⟨?_, ?_, ?_, ?_, ?_, ?_, ?_, ?_, ?_, ?_, ?_, ?_, ?_, ?_⟩ <;> grind [midStage, lateStage, alive2]
+  · exact ⟨ib, is⟩
+
+theorem construct_K {a : ACfg} {s : St} (ib : InvB2 a s) (is : InvS a s) :
+    InvB2 a (construct a s) ∧ InvS a (construct a s) := by
+  unfold construct
+  split
+  · rename_i hg
+    simp only [Bool.and_eq_true, Bool.not_eq_true', bne_iff_ne, ne_eq] at hg
+    obtain ⟨⟨⟨hb, _⟩, hcl⟩, _⟩ := hg
+    have hidle : s.cpc = .idle := by
+      cases h : s.cpc with
+      | idle => rfl
+      | _ => have := ib.b (by rw [h]; simp); rw [hcl] at this; contradiction
+    obtain ⟨b, tc, bu, q, q', ac1, ac2, ac3, ev1, ev2, ev0, ub, ph⟩ := ib
+    obtain ⟨nb, we, wv, ty, wq, d2, cc, hc', can, v2, dn, vn, da, vs⟩ := is
+    have hph0 : mon2Run s.trace2 = 0 := by rw [ph]; simp [phase2, hidle]
+    simp only
+    split
+    · have hph' : mon2Run (({ s with built := true, disp2Set := true } : St).spawn2 .D2 .dispLoop).trace2
+          = phase2 a (({ s with built := true, disp2Set := true } : St).spawn2 .D2 .dispLoop) := by
+        show mon2Run s.trace2 = _
+        rw [hph0]; simp [phase2, St.spawn2, St.setA, St.setP, hidle]
+      constructor
+      · refine ⟨?_, ?_, ?_, ?_, ?_, ?_, ?_, ?_, ?_, ?_, ?_, ?_, hph'⟩ <;> simp only [St.spawn2, St.setA, St.setP] <;>
+          grind [midStage, lateStage]
+      · refine ⟨?_, ?_, ?_, ?_, ?_, ?_, ?_, ?_, ?_, ?_, ?_, ?_, ?_, ?_⟩ <;> simp only [St.spawn2, St.setA, St.setP] <;>
+          grind [midStage, lateStage, alive2, allowed2]
+    · have hph' : mon2Run ({ s with built := true } : St).trace2 = phase2 a { s with built := true } := by
+        show mon2Run s.trace2 = _
+        rw [hph0]; simp [phase2, hidle]
+      constructor
+      · refine ⟨?_, ?_, ?_, ?_, ?_, ?_, ?_, ?_, ?_, ?_, ?_, ?_, hph'⟩ <;> grind [midStage, lateStage]
+      · refine ⟨?_, ?_, ?_, ?_, ?_, ?_, ?_, ?_, ?_, ?_, ?_, ?_, ?_, ?_⟩ <;> grind [midStage, lateStage, alive2]
+  · exact ⟨ib, is⟩
 
 end NasdaqModel.App
